@@ -89,6 +89,10 @@ def install_contracts(I: Interp, heap: ExprHeap):
         "MathExpression.all_changed": heap.c_all_changed,
         "factor": c_factor,
     }
+    # every override of clone in the node hierarchy is covered by the same contract (proved per class in C13)
+    for c in I.classes.values():
+        if "clone" in c.methods and any(b.name == "BinaryTreeNode" for b in c.mro()):
+            I.contracts[f"{c.name}.clone"] = heap.c_clone
 
 
 # --------------------------------------------------------------------------- util.factor contract
